@@ -4,6 +4,12 @@ import json, os, sys
 ROOT = os.path.dirname(os.path.dirname(os.path.abspath(__file__)))
 
 BUILT = {
+ "C01": ("property-based testing against an analytic reference: multi-tone inputs, least-squares fit at the known output frequencies, single fitted delay",
+         "Generated sinc and FFT configurations (windows, lengths 64..512, interpolation types, oversampling 1..2048 with extreme values forced, cutoffs, ratios, rate pairs, chunk sizes, variants, kernels, f32/f64) and 1-4 tones below the passband edge; after the transient 4000 output frames are fitted: per-tone gain, RMS of everything that is not a predicted tone, and the residual against the input delayed by one fitted delay are bounded by the statement's figures (near-edge images: by the C02 figure, see known finding D11). Exploration level.",
+         "numeric thresholds are those written in the statement; zone boundary D_FAR calibrated at design time; f32 floors at least 64 eps"),
+ "C02": ("property-based testing against an analytic reference: stopband tones, per-line least-squares measurement of the tone and its predicted images; exhaustive table check of calculate_cutoff",
+         "Generated configurations and one tone between the stopband edge and the input Nyquist (down- and up-sampling, FFT down-sampling): every predicted output line and the remainder must be below the stated rejection (3 dB stated measurement tolerance; FFT 100 dB); the -6.02 dB point at f_cutoff; calculate_cutoff on all 12 102 (length, window) pairs (exhaustive). Exploration level.",
+         "guard band of 0.25 transition half-widths above the fitted edge; interpolation term made negligible by construction"),
  "C03": ("stateful property-based testing (proptest call histories, crash-isolating worker subprocess, probing interpolator), shrinking",
          "Generated call histories over all seven types x {f32,f64} executed against the real resampler in a worker process built with debug assertions and overflow checks: an abort, panic, Err or an out-of-range request seen by the probing interpolator is a violation. Exploration only: holds on the histories generated, no absence proof.",
          "std unsafe-precondition checks and overflow checks turn UB into aborts; the harness position model (validated against the implementation on every call) defines the benign envelope for fixed-input ratio changes; NEON unreachable on this host"),
